@@ -43,6 +43,8 @@ def one_case(fmt, name, iso, tmp):
     from pgv import rtgen
     from pygaps.utilities.exceptions import pgError
     problems = []
+    if isinstance(iso, Exception):
+        return [f"the isotherm could not be constructed: {type(iso).__name__}: {iso}"[:200]]
     for via_file in ((False, True) if fmt != 'excel' else (True,)):
         try:
             back, doc = _export_import(fmt, iso, tmp, via_file)
